@@ -32,6 +32,12 @@ type c02in struct {
 	SnrNonzero bool `json:"snr_nonzero"`
 	// TruncLag marks the one instant at which the MPD may lag the server by less than 1 ms
 	TruncLag bool `json:"trunc_lag,omitempty"`
+	// LongAfterFirst: the segment is the first listed one and the segment after it is longer than the
+	// server's 10 s margin (timeShiftBufferDepthMarginS)
+	LongAfterFirst bool `json:"long_after_first,omitempty"`
+	// MeanTruncated: $Number$ template of an asset with varying segment durations whose mean duration is
+	// not a whole number of ticks (@duration is truncated, so the nominal timeline drifts without bound)
+	MeanTruncated bool `json:"mean_truncated,omitempty"`
 }
 
 // availability instant of a segment ending at media time e (exact, ms)
@@ -114,6 +120,8 @@ type harness struct {
 	mu       sync.Mutex
 	c        *lib.Ctx
 	ls       *lib.Livesim
+	gls      *lib.Livesim    // server over the generated layouts
+	gen      map[string]bool // asset paths served by gls
 	rng      *rand.Rand
 	terms    []string
 	defs     strings.Builder
@@ -134,8 +142,12 @@ type segExp struct {
 func (h *harness) fetch(a *lib.TLAsset, cfg lib.TLCfg, ao *lib.ASObs, repID string, r *lib.TLRep, nr, tm, now int64) (lib.SegObs, string) {
 	name := lib.FillTemplate(ao.Media, repID, nr, tm)
 	url := fmt.Sprintf("/livesim2/%s%s/%s?nowMS=%d", cfg.URLPrefix(), a.Path, name, now)
+	srv := h.ls
+	if h.gen[a.Path] {
+		srv = h.gls
+	}
 	h.mu.Unlock()
-	resp := h.ls.GetRaw(url)
+	resp := srv.GetRaw(url)
 	h.mu.Lock()
 	h.nSeg++
 	if r != nil {
@@ -227,7 +239,11 @@ func (h *harness) pick(rng *rand.Rand, n int) []int {
 func (h *harness) oneMPD(a *lib.TLAsset, cfg lib.TLCfg, now int64) {
 	c := h.c
 	url := lib.MPDURL(a, cfg, now)
-	mo := lib.FetchMPD(h.ls, url)
+	srv := h.ls
+	if h.gen[a.Path] {
+		srv = h.gls
+	}
+	mo := lib.FetchMPD(srv, url)
 	h.mu.Lock()
 	defer h.mu.Unlock()
 	h.nMPD++
@@ -381,7 +397,9 @@ func (h *harness) timelineAS(id string, in c02in, a *lib.TLAsset, cfg lib.TLCfg,
 		if mode == "tlnr" {
 			e.nr, e.hasNr = startNr+int64(i), true
 		}
-		h.checkListed(fmt.Sprintf("%s.s%d", id, i), in, a, cfg, ao, repID, r, e, now)
+		lin := in
+		lin.LongAfterFirst = i == 0 && len(tl) > 1 && tl[1].D > 10*ao.Timescale
+		h.checkListed(fmt.Sprintf("%s.s%d", id, i), lin, a, cfg, ao, repID, r, e, now)
 	}
 	lt := tl[len(tl)-1]
 	e := segExp{t: lt.T + lt.D, nr: startNr + int64(len(tl))}
@@ -446,8 +464,23 @@ func (h *harness) numberAS(id string, in c02in, a *lib.TLAsset, cfg lib.TLCfg, m
 	rel := new(big.Rat).SetInt64(now - cfg.StartS*1000 + max64(cfg.AtoMS, 0))
 	rel.Mul(rel, new(big.Rat).SetFrac64(ts, 1000*d))
 	nAvail := new(big.Int).Quo(rel.Num(), rel.Denom()).Int64() // number of segments whose nominal end has passed
+	skipK := int64(0)
 	if !constant {
-		nAvail -= 2 // agreement within the duration variation: stay away from the edges
+		// agreement within the duration variation: stay away from both edges by the largest
+		// deviation of a real segment end from its nominal end (k+1)*d, plus one segment
+		dev := new(big.Rat)
+		for n := int64(0); n < int64(len(tab.Segs)); n++ {
+			x := new(big.Rat).SetFrac64(tab.Segs[n].End*1000, tab.Timescale)
+			x.Sub(x, new(big.Rat).SetFrac64((n+1)*d*1000, ts))
+			x.Abs(x)
+			if x.Cmp(dev) > 0 {
+				dev = x
+			}
+		}
+		in.MeanTruncated = (tab.Duration()*ts)%(int64(len(tab.Segs))*tab.Timescale) != 0
+		dev.Mul(dev, new(big.Rat).SetFrac64(ts, 1000*d))
+		skipK = new(big.Int).Quo(dev.Num(), dev.Denom()).Int64() + 2
+		nAvail -= skipK
 	}
 	if nAvail <= 0 {
 		e := segExp{nr: sn, hasNr: true}
@@ -468,9 +501,7 @@ func (h *harness) numberAS(id string, in c02in, a *lib.TLAsset, cfg lib.TLCfg, m
 			kFirst++
 		}
 	}
-	if !constant {
-		kFirst += 2
-	}
+	kFirst += skipK
 	if kFirst > kLast {
 		return
 	}
@@ -520,13 +551,32 @@ func run(c *lib.Ctx) error {
 	if err != nil {
 		return err
 	}
-	h := &harness{c: c, ls: ls, rng: rand.New(rand.NewSource(c.Seed)), repName: map[string]string{}, distinct: map[string]bool{}, maxFetch: 6}
+	h := &harness{c: c, ls: ls, rng: rand.New(rand.NewSource(c.Seed)), repName: map[string]string{}, distinct: map[string]bool{}, gen: map[string]bool{}, maxFetch: 6}
+	// generated layouts: a few of the catalogue and one with a 30 s segment between two 4 s segments
+	// (findings stream: the first listed entry can already be gone when the next segment is longer than
+	// the server's 10 s margin)
+	long30 := lib.GenAsset{Name: "g_long30", Reps: []lib.GenRep{lib.VideoRep("V1", 90000, 3000, []uint64{360000, 2700000, 360000})}}
+	layouts := []lib.GenAsset{long30}
+	for _, l := range lib.GenCatalogue() {
+		if l.Class == "ok" && (c.Thorough() || l.Asset.Name == "g_irr7_12800" || l.Asset.Name == "g_sub_15360" || l.Asset.Name == "g_ntsc_multi") {
+			layouts = append(layouts, l.Asset)
+		}
+	}
+	gAssets, gls, cleanup, err := lib.GenSetup("c02", layouts)
+	if err != nil {
+		return err
+	}
+	defer cleanup()
+	h.gls = gls
+	for _, a := range gAssets {
+		h.gen[a.Path] = true
+	}
 	if c.Replay != "" {
 		in, err := lib.LoadReplayInput[c02in](c.Replay)
 		if err != nil {
 			return err
 		}
-		for _, a := range assets {
+		for _, a := range append(append([]*lib.TLAsset{}, assets...), gAssets...) {
 			if a.Path == in.Asset {
 				h.maxFetch = 1 << 30
 				h.oneMPD(a, in.Cfg, in.NowMS)
@@ -559,7 +609,7 @@ func run(c *lib.Ctx) error {
 		segMS := a.LoopMS / N
 		for k := 0; k < nCfg; k++ {
 			cfg := lib.TLCfg{StartS: starts[h.rng.Intn(len(starts))], Snr: snrs[h.rng.Intn(len(snrs))], Tsbd: tsbds[h.rng.Intn(len(tsbds))], Mode: modes[h.rng.Intn(3)], Extra: extras[h.rng.Intn(len(extras))]}
-			switch h.rng.Intn(6) {
+			switch h.rng.Intn(7) {
 			case 0:
 				if cfg.Mode == "number" {
 					cfg.AtoMS = -1
@@ -570,6 +620,8 @@ func run(c *lib.Ctx) error {
 				cfg.AtoMS = segMS / 2
 			case 3:
 				cfg.AtoMS = 1 + h.rng.Int63n(segMS-1)
+			case 4:
+				cfg.AtoMS = segMS + segMS/4 // longer than a segment: reaches into the next loop at a wrap
 			}
 			if k < 3 {
 				cfg = lib.TLCfg{Snr: -1, Tsbd: -1, Mode: modes[k]}
@@ -608,6 +660,29 @@ func run(c *lib.Ctx) error {
 					continue
 				}
 				jobs = append(jobs, job{a, cfg, now})
+			}
+		}
+	}
+	for gi, a := range gAssets {
+		h.gen[a.Path] = true
+		ref := a.Ref()
+		if ref == nil {
+			continue
+		}
+		N := int64(len(ref.Segs))
+		for k := 0; k < 3; k++ {
+			cfg := lib.TLCfg{Snr: -1, Tsbd: []int64{-1, 20, 1}[k], Mode: modes[(k+gi)%3]}
+			if a.Path == "g_long30" {
+				cfg = lib.TLCfg{Snr: -1, Tsbd: 20, Mode: modes[k%2]}
+				jobs = append(jobs, job{a, cfg, 34500}, job{a, cfg, 72500}, job{a, cfg, 91500})
+			}
+			for _, n := range []int64{0, N - 1, N, 3*N + 1, 2000000} {
+				A := availRat(ref.LoopE(n), ref.Timescale, cfg, cfg.AtoMS)
+				q := new(big.Int).Quo(A.Num(), A.Denom()).Int64()
+				if !A.IsInt() {
+					q++
+				}
+				jobs = append(jobs, job{a, cfg, q - 1}, job{a, cfg, q}, job{a, cfg, q + 700})
 			}
 		}
 	}
